@@ -30,12 +30,12 @@ ASSUMPTIONS = [
     "HarfBuzz 12.1 is the trusted evaluator of both the static masters and the built variable font",
     "bound at a master's own location: 0.5 (the master's own delta rounding) + 0.02 (HarfBuzz float32) "
     "+ optimize*0.5*sum|scalar_t| over the built glyph's tuples (IUP tolerance) + the measured movement of the built font "
-    "under K F2Dot14 steps per axis (K = ceil(1 + avar segment slope/2), the normalisation tolerance) + 0.5 step x tent slope x max|delta| per stored tuple (peaks are stored as F2Dot14); advances and "
+    "under K F2Dot14 steps per axis (K = ceil(1.25 + 0.75 x avar segment slope), the normalisation tolerance) + 0.5 step x tent slope x max|delta| per stored tuple (peaks are stored as F2Dot14); advances and "
     "metrics +0.5 for HarfBuzz's integer rounding",
-    "normalisation sub-claim tolerance in F2Dot14 steps: 1 + slope/2, slope = steepest normalised map segment touching the point "
+    "normalisation sub-claim tolerance in F2Dot14 steps: 1.25 + 0.75*slope, slope = steepest normalised map segment touching the point "
     "(avar stores both ends of a segment as F2Dot14: half a step on the output, half a step x slope from the input knot, half a step for "
-    "the final rounding; HarfBuzz 12 keeps 16.16 precision through avar, so the stored knots' quantisation is visible even on a knot: "
-    "observed 1.22 steps on a slope-1.7 segment of the unchanged tree)",
+    "the final rounding; HarfBuzz 12 works in 16.16 through avar: a quarter step x slope for its input, a quarter step for its arithmetic; the stored "
+    "knots' quantisation is therefore visible even on a knot: observed 2.48 steps on a slope-2.8 segment of the unchanged tree)",
     "glyphs that are absent (empty) in a sparse master are not compared at that master; advances flagged with the documented 0xFFFF sentinel likewise",
     "avar2 documents (axis <mappings>) are exempt from the axis-map sub-claim and from master reproduction away from the default",
     "designspaces the builder rejects with a VarLibError subclass are 'precondition not met' (corpus only; generated masters are compatible by construction)",
@@ -156,7 +156,10 @@ def map_tol_steps(knots, n_in):
     """Tolerance (F2Dot14 steps) for a normalised coordinate produced through a stored map:
     the segment's end knots are stored as F2Dot14 (from: half a step x slope, to: half a
     step) and the result is rounded once more (half a step)."""
-    return 1 + seg_slope_at(knots, n_in) / 2
+    # + the engine's own intermediate precision: HarfBuzz 12 normalises to 16.16 before the map (a quarter of an
+    # F2Dot14 step x slope, including float32 user coordinates) and multiplies in 16.16 (a quarter step)
+    sl = seg_slope_at(knots, n_in)
+    return 1 + sl / 2 + sl / 4 + F(1, 4)
 
 
 def inverse_map(ax, design):
@@ -382,6 +385,11 @@ def run_case(case, ctx):
     if not avar2:
         _check_axis_maps(case, ctx, V, axes, rnd)
 
+    # ---- sharper in-memory monitor: the built tables evaluated with the harness' exact tent evaluator at the
+    # exact (unquantised) normalised master locations; no engine rounding, no F2Dot14: half a unit exactly
+    if not avar2:
+        _exact_inmemory(case, ctx, vf, masters, axes, optimize)
+
     # ---- master reproduction
     comps = composite_info(vf)
     phantom_var = set()
@@ -527,6 +535,75 @@ def run_case(case, ctx):
                   "table_builders": dict(_cur["tables"]), "worst_observed": worst, "tables": sorted(V.tags)}
 
 
+def _exact_inmemory(case, ctx, vf, masters, axes, optimize):
+    from fontTools.ttLib import TTFont
+    from fontTools.misc.roundTools import noRound
+
+    fvar_axes = vf["fvar"].axes
+    order = vf.getGlyphOrder()
+    hv = vf["HVAR"].table if "HVAR" in vf else None
+    regs = [r.get_support(fvar_axes) for r in hv.VarStore.VarRegionList.Region] if hv else []
+    worst_adv = worst_pt = 0.0
+    for m in masters:
+        if m["bytes"] is None:
+            continue
+        loc = m["norm_exact"]
+        mf = TTFont(io.BytesIO(m["bytes"]), recalcTimestamp=False)
+        if "hmtx" not in mf:
+            continue
+        sparse = set(m.get("sparse") or [])
+        mh = mf["hmtx"].metrics
+        if hv is not None:
+            sc = [T.region_scalar(loc, r) for r in regs]
+            for g in order:
+                if g not in mh or g in sparse or mh[g][0] == 0xFFFF:
+                    continue
+                idx = hv.AdvWidthMap.mapping[g] if hv.AdvWidthMap else vf.getGlyphID(g)
+                vd = hv.VarStore.VarData[idx >> 16]
+                row = vd.Item[idx & 0xFFFF]
+                val = F(vf["hmtx"].metrics[g][0]) + sum((sc[ri] * F(d) for ri, d in zip(vd.VarRegionIndex, row)), F(0))
+                err = abs(val - mh[g][0])
+                ctx.judged()
+                worst_adv = max(worst_adv, float(err))
+                if err > F(1, 2) + F(1, 10 ** 6):
+                    ctx.violation({"kind": "master-reproduction", "what": "advance-exact", "op": "_add_HVAR"},
+                                  "glyph %s at master %s: hmtx+HVAR evaluated exactly gives %.4f, the master's advance is %d (half a unit allowed)" % (g, m["name"], float(val), mh[g][0]),
+                                  {"case": case["id"], "master": m["name"], "norm": {k: float(v) for k, v in loc.items()}})
+        if "gvar" in vf and "glyf" in mf and not optimize:
+            vg, vglyf = vf["gvar"], vf["glyf"]
+            vhm = vf["hmtx"].metrics
+            for g in order:
+                if g in sparse or g not in mf["glyf"].glyphs:
+                    continue
+                r = mf["glyf"]._getCoordinatesAndControls(g, mh, None, round=noRound)
+                d0 = vglyf._getCoordinatesAndControls(g, vhm, None, round=noRound)
+                if r is None or d0 is None or len(r[0]) != len(d0[0]):
+                    continue
+                if r[1].numberOfContours == 0 and d0[1].numberOfContours != 0:
+                    continue
+                acc = [[F(x), F(y)] for x, y in d0[0]]
+                okg = True
+                for tv in vg.variations.get(g) or []:
+                    if None in tv.coordinates:
+                        okg = False
+                        break
+                    s_ = T.region_scalar(loc, {k: tuple(v) for k, v in tv.axes.items()})
+                    if s_:
+                        for i, dl in enumerate(tv.coordinates):
+                            acc[i][0] += s_ * F(dl[0])
+                            acc[i][1] += s_ * F(dl[1])
+                if not okg:
+                    continue
+                err = max((max(abs(a[0] - F(p[0])), abs(a[1] - F(p[1]))) for a, p in zip(acc, r[0])), default=F(0))
+                ctx.judged()
+                worst_pt = max(worst_pt, float(err))
+                if err > F(1, 2) + F(1, 10 ** 6):
+                    ctx.violation({"kind": "master-reproduction", "what": "gvar-exact", "op": "_add_gvar"},
+                                  "glyph %s at master %s: default + gvar deltas evaluated exactly differ from the master's points by %.4f (half a unit allowed)" % (g, m["name"], float(err)),
+                                  {"case": case["id"], "master": m["name"], "norm": {k: float(v) for k, v in loc.items()}})
+    ctx.note("exact-inmemory-masters")
+
+
 def _typo_consistent(font):
     if "OS/2" not in font or "hhea" not in font:
         return False
@@ -602,3 +679,14 @@ def _check_axis_maps(case, ctx, V, axes, rnd):
                               "axis %s user %s: built font normalises to %.6f, the designspace maps say %.6f (%.2f F2Dot14 steps, tolerance %s)"
                               % (a["tag"], uf, got, float(want), float(err), tol),
                               {"case": case["id"], "axis": {k: a[k] for k in ("tag", "min", "default", "max", "map")}, "user": uf})
+
+
+def coverage_extra(results):
+    """largest differences actually observed (all inside their budgets when the run held)"""
+    mx = {}
+    for r in results:
+        w = (r.get("sample") or {}).get("worst_observed") or {}
+        for k, v in w.items():
+            if isinstance(v, (int, float)) and v == v and v != float("inf"):
+                mx[k] = max(mx.get(k, 0), v)
+    return {"observed_maxima": mx}
